@@ -35,6 +35,14 @@ CONSTS = [
     ("DEFAULT_MAX_PROVIDER_KEYS", KAD + "config.rs", const("DEFAULT_MAX_PROVIDER_KEYS")),
     ("DEFAULT_MAX_PROVIDER_ADDRESSES", KAD + "config.rs", const("DEFAULT_MAX_PROVIDER_ADDRESSES")),
     ("DEFAULT_MAX_PROVIDERS_PER_KEY", KAD + "config.rs", const("DEFAULT_MAX_PROVIDERS_PER_KEY")),
+    # C17 (callers of the store, refresh machinery): durations in seconds
+    ("KAD_MAX_ADDRESSES", KAD + "types.rs", const("MAX_ADDRESSES")),
+    ("DEFAULT_PROVIDER_TTL_SECS", KAD + "config.rs",
+     r"const\s+DEFAULT_PROVIDER_TTL\s*:\s*Duration\s*=\s*Duration::from_secs\(([^)]+)\)"),
+    ("DEFAULT_PROVIDER_REFRESH_INTERVAL_SECS", KAD + "config.rs",
+     r"const\s+DEFAULT_PROVIDER_REFRESH_INTERVAL\s*:\s*Duration\s*=\s*Duration::from_secs\(([^)]+)\)"),
+    ("DEFAULT_RECORD_TTL_SECS", KAD + "config.rs",
+     r"const\s+DEFAULT_TTL\s*:\s*Duration\s*=\s*Duration::from_secs\(([^)]+)\)"),
     # C15
     ("REPLICATION_FACTOR", KAD + "config.rs", const("REPLICATION_FACTOR")),
     ("PARALLELISM_FACTOR", KAD + "mod.rs", const("PARALLELISM_FACTOR")),
@@ -160,6 +168,10 @@ def main():
     counts, miss = gen_c18_sites.generate(REPO)
     vals.update(counts)      # PEER_ID_SITES
     missing += list(miss)
+    # C17: shape of the MemoryStore, its configuration and its callers -> coq/gen/C17Tables.v (sibling script)
+    import gen_c17_tables
+    counts, miss = gen_c17_tables.generate(REPO)
+    vals.update(counts)      # C17_STORE_CALL_SITES
     # C10: the DialError variants and the arms of AddressStore::error_score -> coq/gen/DialErrors.v
     import gen_c10_errors
     counts, miss = gen_c10_errors.generate(REPO)
